@@ -21,7 +21,10 @@ from .common import Reporter
 STD = {1: {1}, 6: {4}, 7: {3}, 8: {2}, 9: {1}, 17: {1}, 35: {1}, 53: {1}, 16: {2, 6}, 15: {3, 5}}
 MODS = {"quick": {2: 1, 3: 3, 4: 200}, "thorough": {2: 1, 3: 1, 4: 12, 5: 4000}}
 # MC_Lewis: (heavy atoms, SampleMod) - every neutral closed-shell molecule of the supported elements with that many heavy atoms
-LEWIS = {"quick": {1: 1, 2: 1, 3: 1}, "thorough": {1: 1, 2: 1, 3: 1, 4: 4}}
+# (heavy atoms, shape, number of elements from C N O S P F, SampleMod)
+LEWIS = {"quick": [(1, "any", 6, 1), (2, "any", 6, 1), (3, "any", 6, 1), (4, "path", 3, 1), (6, "ring", 1, 1)],
+         "thorough": [(1, "any", 6, 1), (2, "any", 6, 1), (3, "any", 6, 1), (4, "any", 6, 2), (5, "path", 3, 2), (5, "ring", 3, 1),
+                      (6, "ring", 2, 1), (6, "path", 2, 2)]}
 
 
 def certified(m):
@@ -45,6 +48,24 @@ def certified(m):
         if any(b.GetBondTypeAsDouble() > 1 for b in a.GetBonds()):
             n_unsat += 1
     return n_unsat <= 14
+
+
+def lewis_motif(heavy, orders):
+    """structural class of a constructed Lewis structure (heavy atoms 1..n, orders = [[a, b, order], ...]):
+    'hypervalent-bonded-partners': an atom with two multiple-bond partners that are bonded to each other;
+    'multi-sp': at least two atoms with two or more units of unsaturation (cumulated / triple-bond atoms);
+    'plain': everything else"""
+    n = len(heavy)
+    bo = {frozenset((a, b)): o for a, b, o in orders}
+    nb = {a: [b for b in range(1, n + 1) if frozenset((a, b)) in bo] for a in range(1, n + 1)}
+    for a in nb:
+        dbl = [x for x in nb[a] if bo[frozenset((a, x))] >= 2]
+        if any(frozenset((x, y)) in bo for i, x in enumerate(dbl) for y in dbl[i + 1:]):
+            return "hypervalent-bonded-partners"
+    du = {a: sum(bo[frozenset((a, b))] - 1 for b in nb[a]) for a in nb}
+    if sum(1 for a in du if du[a] >= 2) >= 2:
+        return "multi-sp"
+    return "plain"
 
 
 def as_int_matrix(bo):
@@ -88,8 +109,8 @@ def run(tier):
     # ------------------- chemical, by construction (MC_Lewis) -------------------
     n_lewis = 0
     lewis_keys = set()
-    for n, mod in LEWIS[tier].items():
-        cs, res = c20.tlc_cases("MC_Lewis", {"NHeavy": n, "SampleMod": mod, "NPerm": 4}, "L")
+    for n, shape, eln, mod in LEWIS[tier]:
+        cs, res = c20.tlc_cases("MC_Lewis", {"NHeavy": n, "SampleMod": mod, "NPerm": 4, "Shape": '"%s"' % shape, "ElN": eln}, "L")
         states += res.distinct
         gen += res.generated
         for c in cs:
@@ -104,7 +125,8 @@ def run(tier):
                               f"connectivity2bond_orders raised {type(e).__name__} on a constructed closed-shell molecule", {"case": c})
                 continue
             recs.append({"id": len(recs) + 1, "els": els, "ac": ac, "bo": as_int_matrix(bo), "charges": [int(x) for x in ch],
-                         "unpaired": [int(x) for x in un], "lewis": True, "src": f"lewis:{key}|perm{c['perm']}|direct",
+                         "unpaired": [int(x) for x in un], "lewis": True,
+                         "src": f"lewis:{lewis_motif(c['heavy'], c['orders'])}/{shape}{n}/{key}|perm{c['perm']}|direct",
                          "structure": c["orders"]})
     # ------------------------------ chemical ------------------------------
     n_mols = 0
@@ -175,7 +197,7 @@ def run(tier):
         sig = (f"C18|{clause}|{src[0]}|{src[-1]}" if r["lewis"] else f"C18|structural|matrix|n={len(r['els'])}")
         if src[0].startswith("lewis:"):
             # signature by the multiset of heavy elements and the bonds between DIFFERENT multi-valent elements involved
-            sig = f"C18|{clause}|constructed|" + src[0][6:]
+            sig = f"C18|{clause}|constructed|" + src[0][6:].replace("/", "|")
         rep.violation(sig, f"bond orders for {r['src']}: clause '{clause}' of Obs_BondOrd fails", {"record": r})
     cov = {
         "states": states, "transitions": gen, "traces_validated_against_impl": len(recs),
